@@ -18,6 +18,7 @@ import (
 	"net/http"
 	"runtime/debug"
 	"strconv"
+	"strings"
 	"sync"
 	"sync/atomic"
 	"time"
@@ -665,7 +666,13 @@ func (bsc *BlipSyncContext) buildRevHistory(input revHistoryInput) (history []st
 	// Append or separate the rev tree for cross-version or ISGR peer scenarios
 	if input.remoteIsLegacyRev && !input.localIsLegacyRev {
 		// Scenario 3: remote needs rev tree appended to history for conflict detection
-		history = append(history, input.revID)
+		if n := len(history); n > 0 && strings.HasSuffix(history[n-1], ";") {
+			// The HLV history holds merge versions only ("mv;"): the rev tree entries follow the semicolon directly,
+			// an empty entry after it cannot be parsed by the peer.
+			history[n-1] += input.revID
+		} else {
+			history = append(history, input.revID)
+		}
 		history = append(history, input.revTreeHistory...)
 	} else if bsc.sendRevTreeProperty() && !input.localIsLegacyRev {
 		// Scenario 5: ISGR peer gets rev tree in a separate property
